@@ -32,10 +32,11 @@ impl FdBackend {
         Ok(Self { file, len })
     }
 
-    pub(crate) fn write(&self, offset: usize, data: &[u8]) {
+    pub(crate) fn write(&self, offset: usize, data: &[u8]) -> std::io::Result<()> {
         use std::os::unix::fs::FileExt;
-        // pwrite doesn't move the file cursor
-        let _ = self.file.write_at(data, offset as u64);
+        // pwrite doesn't move the file cursor; a failed or short write is an error,
+        // not something to acknowledge
+        self.file.write_all_at(data, offset as u64)
     }
 
     pub(crate) fn read(&self, offset: usize, dest: &mut [u8]) {
@@ -64,7 +65,7 @@ pub(crate) enum StorageImpl {
 }
 
 impl StorageImpl {
-    pub(crate) fn write(&self, offset: usize, data: &[u8]) {
+    pub(crate) fn write(&self, offset: usize, data: &[u8]) -> std::io::Result<()> {
         match self {
             StorageImpl::Mmap(mmap) => {
                 debug_assert!(offset <= mmap.len());
@@ -73,6 +74,7 @@ impl StorageImpl {
                     let ptr = mmap.as_ptr() as *mut u8;
                     std::ptr::copy_nonoverlapping(data.as_ptr(), ptr.add(offset), data.len());
                 }
+                Ok(())
             }
             StorageImpl::Fd(fd) => fd.write(offset, data),
         }
@@ -162,18 +164,19 @@ impl SharedMmap {
         }))
     }
 
-    pub(crate) fn write(&self, offset: usize, data: &[u8]) {
+    pub(crate) fn write(&self, offset: usize, data: &[u8]) -> std::io::Result<()> {
         // Bounds check before raw copy to maintain memory safety
         debug_assert!(offset <= self.storage.len());
         debug_assert!(self.storage.len() - offset >= data.len());
 
-        self.storage.write(offset, data);
+        self.storage.write(offset, data)?;
 
         let now_ms = SystemTime::now()
             .duration_since(SystemTime::UNIX_EPOCH)
             .unwrap_or_else(|_| std::time::Duration::from_secs(0))
             .as_millis() as u64;
         self.last_touched_at.store(now_ms, Ordering::Relaxed);
+        Ok(())
     }
 
     pub(crate) fn read(&self, offset: usize, dest: &mut [u8]) {
